@@ -29,6 +29,11 @@ func runC15(p *Prog, r *Report) {
 	if want("C15.3") {
 		ruleKeyCodec(p, r, "C15.3")
 	}
+	if want("C15.6") {
+		// the range predicates and table searches rest on the internal-key order (a (ukey, maxSeq)
+		// probe sorts before every entry of ukey)
+		ruleRangePredicates(p, r, "C15.6")
+	}
 	if want("C15.5") {
 		ruleBytewiseShortening(p, r, "C15.5")
 	}
